@@ -156,7 +156,7 @@ func corpusCases(e *lib.Env) []*pcase {
 			}
 			rel, _ := filepath.Rel(e.Repo, p)
 			src := string(b)
-			c := &pcase{Name: "corpus/" + rel, Family: "corpus", Rel: filepath.Join("corpus", rel), Src: src, Twice: true, Features: corpusFeatures(src)}
+			c := &pcase{Name: "corpus/" + rel, Family: "corpus", Rel: filepath.Join("corpus", rel), Src: src, Features: corpusFeatures(src)}
 			if reCorpusDeny.MatchString(src) || strings.HasSuffix(rel, "run_tests.php") || len(src) > 200_000 {
 				c.NoRun = true
 				c.Features = nil
